@@ -267,7 +267,7 @@ func (g *declGen) positionals() ([]*ArgSpec, bool) {
 	var out []*ArgSpec
 	n := r.Range(1, 2)
 	for i := 0; i < n; i++ {
-		a := &ArgSpec{Field: fmt.Sprintf("P%d", i), Name: r.Pick([]string{"", "SRC", "FILE", "dst"}), Kind: r.Pick([]string{"string", "string", "int"})}
+		a := &ArgSpec{Field: fmt.Sprintf("P%d", i), Name: r.Pick([]string{"", "SRC", "FILE", "dst", "ÜBER", "ファイル", "naïve-name"}), Kind: r.Pick([]string{"string", "string", "int"})}
 		if r.Chance(1, 3) {
 			a.Required = "yes"
 		}
@@ -300,6 +300,12 @@ func (g *declGen) cmd(depth int, tagOK bool) *CmdSpec {
 	}
 	if c.Exec && cfg.Descriptions && r.Chance(1, 5) {
 		c.Usage = "[" + c.Name + "-args...]"
+	}
+	if cfg.Namespaces && r.Chance(1, 6) {
+		c.Namespace = r.Pick([]string{"cns", "c", "cmdns"})
+	}
+	if cfg.Namespaces && cfg.Env && r.Chance(1, 5) {
+		c.EnvNamespace = r.Pick([]string{"CMD", "C", "SERVE"})
 	}
 	if cfg.CapCmds && r.Chance(1, 5) {
 		c.Name = strings.ToUpper(c.Name[:1]) + c.Name[1:]
@@ -377,6 +383,9 @@ func genDecl(r *Rng, cfg *DeclCfg) *DeclSpec {
 	if cfg.Pos && nc == 0 && r.Chance(1, 4) {
 		d.Root.Pos, d.Root.PosRequired = g.positionals()
 	}
+	// (no namespace on the parser itself: the default group created by NewParser is
+	// attached to the parser directly and does not see it, while groups added with
+	// AddGroup do; the field is an accident of embedding, not a documented feature)
 	if cfg.Namespaces && r.Chance(1, 4) {
 		d.NSDelim = r.Pick([]string{"-", ":", "__"})
 	}
